@@ -61,7 +61,10 @@ CFG = {
     "harness_bin": "c03",
     "n": {"quick": 40000, "thorough": 600000},
     "trivial_tags": ["unit", "unmount", "text-same"],
-    "rule": "(widened after seed round 3: every attribute item in every Rust string type of its value -- String, &'static str, "
+    "rule": "(widened after seed round 4: the raw-text elements script / style / textarea / noscript (ESCAPE_CHILDREN = false) with text, "
+            "Option, Either, Vec, element and AnyView children whose content changes across rebuilds; StaticVec<T> at top level (as the LAST "
+            "child of the mount parent) and as the one child of a top-level element, with same-length / shrinking / growing rebuilds) "
+            "(widened after seed round 3: every attribute item in every Rust string type of its value -- String, &'static str, "
             "Cow<'static,str>, Arc<str>, Oco<'static,str>, for style:(name,value) also of the property NAME -- and passed through "
             "into_cloneable() / into_cloneable_owned() before it is added, statically typed and inside AnyView (into_owned erases "
             "the attributes); the whole-value optional Style<Option<_>>; attribute spreading view.add_any_attr(attr) over tuples / Vec / "
@@ -85,6 +88,10 @@ CFG = {
         "lean/Driver/C03.lean reads over the `~<form><conv><kform>` suffix of attribute types (the model has one string type and no "
         "conversions), maps `oy` (Style<Option<_>>) to the optional named attribute `style`, and turns `x aty ty` (spreading) into "
         "View.spread / Ty.spread (the item becomes the last attribute of every top-level element; AnyView hands it to its content)",
+        "StaticVec is covered by a C03-LOCAL wrapper in lean/Driver/C03.lean (`rebuildSv`; the shared View / State have no constructor): its "
+        "state is the tuple state (no marker), build / mount / unmount are the tuple's, rebuild = model unmount of the old items, model build of the "
+        "new ones, model mount with no marker (END of the parent) = StaticVec::rebuild at HEAD; for an element with a StaticVec child the "
+        "element's attributes are rebuilt by the model's rebuild with the OLD children (a no-op on them)",
         "oracle normal form: attributes compared as a map, class as a token set, style as a declaration map, an empty "
         "class/style attribute identified with an absent one; node identity and mutation counters are compared between "
         "implementation and model but are not part of the property's oracle",
@@ -100,9 +107,12 @@ CFG = {
                  "type in the model: type erasure and the conversions are transparent); Style<Option<_>> = optional named attribute `style`; "
                  "AddAnyAttr for tuples / Vec / Option / Either / arrays / HtmlElement / AnyView (View.spread: the spec of spreading, not a model "
                  "of AnyViewWithAttrs' state; AnyViewWithAttrs is never put INSIDE another AnyView because the model type of both is `any`)",
-                 "NOT modelled in C03 (shared View/State/Ty inductives are imported by C05 and kept as they are): StaticVec / Fragment "
-                 "(StaticVec::rebuild re-mounts at the END of its parent, outside the property at HEAD; C05 models it on the side as "
-                 "FragState), keyed lists (C11)"],
+                 "raw-text elements are ordinary tags in the model (client build / rebuild does not look at ESCAPE_CHILDREN)",
+                 "StaticVec: driver-local (see trusted), at top level as the last child and as the one child of a top-level element; NOT covered: "
+                 "StaticVec in any other position (StaticVec::rebuild re-mounts at the END of its parent, so anywhere but last it leaves the property "
+                 "at HEAD; C05 models that on the side as FragState), Fragment (= StaticVec<AnyView>, which IS generated), keyed lists (C11); "
+                 "not in the grammar, checked by hand (hooks/c03_attr_findings_demo.rs, F-C03-9..12): Either as an attribute, CustomAttr with a "
+                 "changing key, AnyAttribute changing its type, inner_html"],
     "assumptions": ["states are mounted (rebuild of a never-mounted Vec panics in Rndr::mount_before; not part of the property)",
                     "attribute names are the lower-case AttributeKey constants; class:(name,bool) names that are not one token are generated and "
                     "fall in the known class invalid-class-token (F-C03-7); the stage-2b theorems assume one-token names (itemOk)",
